@@ -35,6 +35,7 @@ type site struct {
 	Line int    `json:"line"`
 	Kind string `json:"kind"` // func, lit, loop, stmt, maprange
 	Fn   string `json:"fn,omitempty"`
+	Hot  bool   `json:"hot,omitempty"` // next to an access to shared state (package-level variable, sync, atomic)
 }
 
 type report struct {
@@ -42,6 +43,7 @@ type report struct {
 	Sites         []site   `json:"sites"`
 	Yields        int      `json:"yields"`
 	MapRanges     int      `json:"map_ranges"`
+	HotSites      int      `json:"hot_sites"`
 	GoStmts       []string `json:"go_stmts"`
 	ChanOps       []string `json:"chan_ops"` // select / range over channel: not owned by the simulator
 	ChanRewritten int      `json:"chan_rewritten"`
@@ -64,6 +66,7 @@ var shimFor = map[string]string{
 	"math/rand":    "srand",
 	"math/rand/v2": "srand2",
 	"maps":         "smaps",
+	"hash/maphash": "smaphash",
 }
 
 var unshimmed = map[string]bool{
@@ -191,13 +194,51 @@ func main() {
 				sp = append(sp, splice{off: off(b.Lbrace) + 1, text: "simrt.Yield(" + strconv.Itoa(id) + "); "})
 				used = true
 			}
+			isHot := func(st ast.Stmt) bool {
+				hot := false
+				ast.Inspect(st, func(n ast.Node) bool {
+					if hot {
+						return false
+					}
+					switch n := n.(type) {
+					case *ast.BlockStmt, *ast.FuncLit:
+						return n == ast.Node(st) // only the statement's own head, not nested bodies
+					case *ast.Ident:
+						if obj, ok := info.Uses[n].(*types.Var); ok && obj.Pkg() != nil && obj.Parent() == obj.Pkg().Scope() {
+							if strings.HasPrefix(obj.Pkg().Path(), mod) && !isErrorType(obj.Type()) {
+								hot = true
+							}
+						}
+					case *ast.SelectorExpr:
+						if sel, ok := info.Selections[n]; ok && sel.Obj() != nil && sel.Obj().Pkg() != nil {
+							switch sel.Obj().Pkg().Path() {
+							case "sync", "sync/atomic":
+								hot = true
+							}
+						}
+						if id, ok := n.X.(*ast.Ident); ok {
+							if pn, ok := info.Uses[id].(*types.PkgName); ok {
+								switch pn.Imported().Path() {
+								case "sync", "sync/atomic":
+									hot = true
+								}
+							}
+						}
+					}
+					return true
+				})
+				return hot
+			}
 			stmtList := func(list []ast.Stmt, skipFirst bool) {
 				if !*stmts {
 					return
 				}
+				prevHot := false
 				for i, s := range list {
+					h := isHot(s)
 					if i == 0 && skipFirst {
 						// the block-entry yield already covers the first statement
+						prevHot = h
 						continue
 					}
 					switch s.(type) {
@@ -205,6 +246,11 @@ func main() {
 						continue
 					}
 					add(s.Pos(), "stmt")
+					if h || prevHot {
+						rep.Sites[len(rep.Sites)-1].Hot = true
+						rep.HotSites++
+					}
+					prevHot = h
 				}
 			}
 			commaOK := map[*ast.UnaryExpr]bool{}
@@ -370,7 +416,13 @@ func main() {
 		}
 	}
 	// generated site count
-	gen := fmt.Sprintf("package simrt\n\nfunc init() { NumSites = %d }\n", nextSite)
+	var hot []string
+	for _, st := range rep.Sites {
+		if st.Hot {
+			hot = append(hot, strconv.Itoa(st.ID))
+		}
+	}
+	gen := fmt.Sprintf("package simrt\n\nfunc init() {\n\tNumSites = %d\n\tHotSites = make([]bool, %d)\n\tHotSites[0] = true\n\tfor _, i := range []int{%s} {\n\t\tHotSites[i] = true\n\t}\n}\n", nextSite, nextSite+1, strings.Join(hot, ", "))
 	if err := os.WriteFile(filepath.Join(root, "internal", "simrt", "zsites.go"), []byte(gen), 0o644); err != nil {
 		fail(err.Error())
 	}
@@ -381,6 +433,13 @@ func main() {
 		}
 	}
 	fmt.Printf("instrument: %d packages, %d yield sites, %d map ranges, %d go statements, shims %v\n", len(rep.Packages), rep.Yields, rep.MapRanges, len(rep.GoStmts), rep.Shimmed)
+}
+
+func isErrorType(t types.Type) bool {
+	if n, ok := t.(*types.Named); ok && n.Obj().Pkg() == nil && n.Obj().Name() == "error" {
+		return true
+	}
+	return types.Implements(t, types.Universe.Lookup("error").Type().Underlying().(*types.Interface))
 }
 
 func isMap(t types.Type) bool {
